@@ -66,6 +66,7 @@ struct HCpca : Harness {
     p.setd("rho", wr.uniform(0.2, 0.8));
     p.setu("data.seed", wr.next() >> 4);
     if (wr.chance(0.5)) p.seti("reuse_outputs", 1);
+    if (wr.chance(0.15)) p.seti("const_var", 1);
     // blocks measured in different units (different instruments): per-block factor 10^e; option 0 keeps the unit, so it gets the wide range
     // ... and, for option 0 (which keeps the unit), the whole data set in a very small or very large unit
     if (p.geti("scaling") == 0 && wr.chance(0.35)) p.setd("unit_exp", wr.chance(0.7) ? wr.uniform(-8.0, -3.0) : wr.uniform(3.0, 6.0));
@@ -105,6 +106,11 @@ struct HCpca : Harness {
     for (int i = 0; i < n; i++) for (int j = 0; j < ptot; j++) { LD v = 0; for (int k = 0; k < r; k++) v += U[i][k] * s[k] * V[j][k]; Xall[i][j] = (double)v; }
     for (int j = 0; j < ptot; j++) { double off = dr.uniform(-30, 30); if (scaling == 5 && fabs(off) < 2) off = off < 0 ? -3 : 3; for (int i = 0; i < n; i++) Xall[i][j] += off; }
     std::vector<Mat> blocks; { int c0 = 0; for (int w : widths) { Mat B(n, std::vector<double>(w)); for (int i = 0; i < n; i++) for (int j = 0; j < w; j++) B[i][j] = Xall[i][c0 + j]; blocks.push_back(B); c0 += w; } }
+    if (p.geti("const_var", 0)) {  // one variable of a block (of width >= 2) is constant: preprocessing zeroes it, the block still counts all its variables
+      Prng cr(p.getu("data.seed") ^ 0xc0ffeeULL, PURPOSE_WORKLOAD);
+      std::vector<int> wide; for (int b = 0; b < nb; b++) if (widths[b] >= 2) wide.push_back(b);
+      if (!wide.empty()) { int b = wide[cr.below(wide.size())], j = (int)cr.below(widths[b]); double v = cr.uniform(-30, 30); if (scaling == 5 && fabs(v) < 2) v = 3; for (auto &r : blocks[b]) r[j] = v; o.counters["probe.constant_variable_in_a_block"]++; }
+    }
     if (p.has("unit_exp")) { double f = pow(10.0, p.getd("unit_exp", 0.0)); for (auto &B : blocks) for (auto &r : B) for (double &v : r) v *= f; o.counters[f < 1 ? "probe.small_unit" : "probe.large_unit"]++; }
     if (p.has("block_unit_exp")) { auto u = p.list("block_unit_exp"); for (int b = 0; b < nb && b < (int)u.size(); b++) { double f = pow(10.0, atof(u[b].c_str())); for (auto &r : blocks[b]) for (double &v : r) v *= f; } o.counters["probe.blocks_in_different_units"]++; }
     char cfg[200]; snprintf(cfg, sizeof cfg, "C09 n=%d blocks=%s scaling=%d npc=%d nproc=%d", n, p.get("widths").c_str(), scaling, npc, nproc);
